@@ -1310,6 +1310,8 @@ class BdrSwitch(Actuator, RelayDemand):  # BDR (13):
     def role(self) -> str | None:
         """Return the role of the BDR91A (there are six possibilities)."""
 
+        from ramses_rf.system import Zone  # not at module level: circular import
+
         # TODO: use self._parent?
         if self._child_id in DOMAIN_TYPE_MAP:
             return DOMAIN_TYPE_MAP[self._child_id]
